@@ -1097,7 +1097,7 @@ func r11_5(c *Ctx, t *tables) {
 				} else if c.bceProvenIn(f, in.Pos()) {
 					c.ok(k, in.Pos(), bceWhy)
 				} else {
-					c.bad(k, in.Pos(), "index %s[%s] is not shown to be in range: it can panic", base.Name(), idx.Name())
+					c.unres(k, in.Pos(), "index %s[%s] is not shown to be in range (no dominating bound recognised, not proven by the compiler either): it may panic", base.Name(), idx.Name())
 				}
 			case *ssa.Slice:
 				if _, isArr := deref(x.X.Type()).Underlying().(*types.Array); isArr && x.Low == nil && x.High == nil {
@@ -1109,7 +1109,7 @@ func r11_5(c *Ctx, t *tables) {
 				} else if c.bceProvenIn(f, in.Pos()) {
 					c.ok(k, in.Pos(), bceWhy)
 				} else {
-					c.bad(k, in.Pos(), "slice bounds of %s are not shown to be in range: it can panic", x.X.Name())
+					c.unres(k, in.Pos(), "slice bounds of %s are not shown to be in range (no dominating bound recognised, not proven by the compiler either): it may panic", x.X.Name())
 				}
 			case *ssa.TypeAssert:
 				k := key("type assertion")
